@@ -23,7 +23,7 @@
 (***************************************************************************)
 EXTENDS Electric, Json
 
-CONSTANTS Depth, NRandom, WalkLen, AddIds, MaxGen, MaxModes, LastOnly
+CONSTANTS Depth, NRandom, WalkLen, AddIds, RandAddIds, MaxGen, MaxModes
 
 VARIABLES hist, live, gens
 gvars == <<st, now, hist, live, gens>>
@@ -36,6 +36,11 @@ NextGens(g, op, r) == IF op.op = "Create" /\ r.err = "OK" THEN g + 1 ELSE g
 RefIds(g) == AddIds \cup { GId(k) : k \in 1..g }
 ExhOps(g) ==
        { MkOp("Add", i, n, 0, "nil", FALSE, NoStart, 1) : i \in AddIds, n \in BOOLEAN }
+  \* a mode that already carries a start_time (a copy of some active-mode readout)
+  \cup { MkOp("Add", "a", FALSE, 0, "nil", FALSE, 0, 1) }
+  \* read-modify-write: GetActiveMode / the listed mode, title edited, written back without a mask
+  \cup { MkOpS("Update", "a", FALSE, 1, "nil", FALSE, NoStart, 1, "active") }
+  \cup { MkOpS("Update", "a", FALSE, 2, "nil", FALSE, NoStart, 1, "listed") }
   \cup (IF g < MaxGen THEN { MkOp("Create", "", n, 0, "nil", FALSE, NoStart, 1) : n \in BOOLEAN } ELSE {})
   \cup { MkOp("Update", i, n, 0, m, FALSE, NoStart, 1) : i \in RefIds(g), n \in BOOLEAN, m \in {"nil", "normal"} }
   \cup { MkOp("Update", i, FALSE, 1, "title", FALSE, NoStart, 1) : i \in RefIds(g) }
@@ -64,14 +69,18 @@ RandOp(z, s, g) ==
       kind == IF DOMAIN s.modes = {} /\ R(1..10) <= 8 THEN R({"Add", "Create"})
               ELSE IF Cardinality(DOMAIN s.modes) >= MaxModes /\ k0 \in {"Add", "Create"} THEN "Delete"
               ELSE k0
-      pool == AddIds \cup { GId(k) : k \in 1..(g + 1) }
+      pool == RandAddIds \cup { GId(k) : k \in 1..(g + 1) }
       \* Add wants a free id most of the time, the others an id that exists
-      \* (AddMode only ever gets ids of AddIds: "g<k>" names what the device allocates)
-      want == IF kind = "Add" THEN AddIds \ DOMAIN s.modes ELSE DOMAIN s.modes
-      id == IF want # {} /\ R(1..10) <= 7 THEN R(want) ELSE IF kind = "Add" THEN R(AddIds) ELSE R(pool)
-  IN MkOp(kind, IF kind \in {"Create", "Clear"} THEN "" ELSE id,
-          R(1..10) <= 4, R(Titles), IF kind = "Update" THEN R(Masks) ELSE "nil", R(BOOLEAN),
-          IF kind = "SetActive" /\ R(1..2) = 1 THEN R(0..3) ELSE NoStart, R({0, 1}))
+      \* (AddMode only ever gets ids of RandAddIds: "g<k>" names what the device allocates)
+      want == IF kind = "Add" THEN RandAddIds \ DOMAIN s.modes ELSE DOMAIN s.modes
+      id == IF want # {} /\ R(1..10) <= 7 THEN R(want) ELSE IF kind = "Add" THEN R(RandAddIds) ELSE R(pool)
+      \* Add / Update: every third one writes back what the client read (the active mode, the listed
+      \* mode); a write-back replaces the whole message (no mask)
+      src == IF kind \in {"Add", "Update"} /\ R(1..3) = 1 THEN R({"active", "listed"}) ELSE "lit"
+  IN MkOpS(kind, IF kind \in {"Create", "Clear"} THEN "" ELSE id,
+           R(1..10) <= 4, R(Titles), IF kind = "Update" /\ src = "lit" THEN R(Masks) ELSE "nil", R(BOOLEAN),
+           IF kind \in {"SetActive", "Add", "Create", "Update"} /\ R(1..3) = 1 THEN R(0..3) ELSE NoStart, R({0, 1}),
+           src)
 
 RECURSIVE Walk(_, _, _, _, _)
 Walk(z, s, t, g, n) ==
@@ -80,9 +89,12 @@ Walk(z, s, t, g, n) ==
            r == Step(s, t + op.dt, op, GId(g + 1))
        IN <<op>> \o Walk(z, r.post, t + op.dt, NextGens(g, op, r), n - 1)
 
-RandInit == /\ st = InitState /\ now = 0 /\ live = FALSE /\ gens = 0
+\* (gens = -1 marks a finished random walk: no successors, every step is logged)
+RandInit == /\ st = InitState /\ now = 0 /\ live = FALSE /\ gens = -1
             /\ hist \in { Walk(k, InitState, 0, 0, WalkLen) : k \in 1..NRandom }
 RandNext == UNCHANGED gvars
 
-EmitCase == Len(hist) > 0 => PrintT("CASE " \o ToJson([ops |-> hist, lastOnly |-> LastOnly]))
+\* both generators in one TLC run (ElectricGenBoth.cfg)
+BothInit == ExhInit \/ RandInit
+EmitCase == Len(hist) > 0 => PrintT("CASE " \o ToJson([ops |-> hist, lastOnly |-> gens >= 0]))
 =============================================================================
